@@ -46,6 +46,7 @@ type baselineFns struct {
 	inl      map[string]bool     // reviewed function was a single `return <expr>` (read as that expression)
 	types    map[string]bool     // named types of the reviewed tree ("pkg.Type")
 	partials map[string]bool     // partial names of the reviewed templates
+	fields   map[string][]string // fields ("name type", in order) of the reviewed named structs
 }
 
 func (w *World) loadBaseline(verifDir string) error {
@@ -59,7 +60,8 @@ func (w *World) loadBaseline(verifDir string) error {
 			Fp  []string `json:"fp"`
 			Inl bool     `json:"inl,omitempty"`
 		} `json:"functions"`
-		Types []string `json:"types"`
+		Types  []string            `json:"types"`
+		Fields map[string][]string `json:"fields"`
 	}
 	if err := json.Unmarshal(b, &doc); err != nil {
 		return err
@@ -81,6 +83,7 @@ func (w *World) loadBaseline(verifDir string) error {
 			}
 		}
 	}
+	w.base.fields = doc.Fields
 	w.base.types = map[string]bool{}
 	for _, t := range doc.Types {
 		w.base.types[t] = true
@@ -124,6 +127,7 @@ func (w *World) dumpFunctions() []byte {
 	sort.Strings(typeNames)
 	b, _ := json.MarshalIndent(map[string]any{
 		"types":     typeNames,
+		"fields":    w.structFieldsTable(),
 		"_comment":  "functions of gleece on the tree the rules were reviewed against (with package|receiver|exported|signature); a function not listed here is analysed as if inlined into its callers, unless it is a listed function under a new name (checker/inline.go)",
 		"functions": ks,
 	}, "", " ")
